@@ -542,65 +542,81 @@ def _reduce(tree, menv):
     if not values:
         raise TranslateError("reduce_to_section: a return is reached without an `isa == <name>` test")
 
-    def feasible(conds, value):
-        import copy as _copy
-        for node, pol in conds:
-            if not any(dump(n) == form for n in ast.walk(node)):
-                continue
-            try:
-                t = ceval(_Put(value).visit(_copy.deepcopy(node)), env)
-            except TranslateError:
-                continue
-            if bool(t) != pol:
-                return False
-        return True
+    import copy as _copy
+    sentinels = {0: set(), 1: set()}
+
+    def truth(at, value, world):
+        """True / False / None (unknown) of one path fact when isa is `value` and `world[k]` says whether index k
+        of the finder's result is the 'not found' sentinel"""
+        node, pol = at
+
+        def atom(n):
+            if isinstance(n, ast.Compare) and len(n.ops) == 1 and isinstance(n.ops[0], (ast.Eq, ast.NotEq)):
+                for a, b in ((n.left, n.comparators[0]), (n.comparators[0], n.left)):
+                    for k in (0, 1):
+                        if raw(a, k) is not None:
+                            sentinels[k].add(const_of(b, env, int, "reduce_to_section sentinel"))
+                            if world is None:
+                                raise TranslateError("unknown")
+                            return world[k] == isinstance(n.ops[0], ast.Eq)
+            if isinstance(n, (ast.Compare, ast.Call)) and any(dump(x) == form for x in ast.walk(n)) \
+                    and not any(isinstance(x, (ast.BoolOp, ast.IfExp)) for x in ast.walk(n)):
+                return bool(ceval(_Put(value).visit(_copy.deepcopy(n)), env))
+            return None
+
+        try:
+            return G5.bool_eval(node, atom) == pol
+        except TranslateError:
+            return None
+
+    def feasible(conds, value, world=None):
+        return all(truth(at, value, world) is not False for at in conds)
+
+    def is_default(bound, k):
+        if k == 0:
+            return bound is not None and _const_is(bound, env, 0)
+        return bound is None or _const_is(bound, env, None) or dump(bound) == len_kernel
 
     for e in rets:
-        v = e.value
-        reach = [x for x in values + [OTHER] if feasible(e.conds, x)]
-        if not reach:
-            continue        # dead path (contradictory ISA tests)
-        if OTHER in reach:
+        if feasible(e.conds, OTHER):
             raise TranslateError("reduce_to_section: a return is reached without an `isa == <name>` test")
-        if len(reach) != 1:
+        reach = [x for x in values if feasible(e.conds, x)]
+        if len(reach) > 1:
             raise TranslateError("reduce_to_section: one return path serves several ISA names: %r" % reach)
-        isa = reach[0]
-        if not (isinstance(v, ast.Subscript) and isinstance(v.slice, ast.Slice) and _is_name(v.value, p_kernel)
-                and v.slice.step is None and v.slice.lower is not None):
-            raise TranslateError("reduce_to_section: `return kernel[start:end]` not found (line %s)" % e.node.lineno)
-        sentinel_eq, sentinel_ne = {}, {}
-        for at in e.conds:
-            for op, dst in ((ast.Eq, sentinel_eq), (ast.NotEq, sentinel_ne)):
-                for l, r in sym_cmp(at, op):
-                    for k in (0, 1):
-                        c = raw(l, k)
-                        if c is not None:
-                            dst[k] = (c, const_of(r, env, int, "reduce_to_section sentinel"))
-        flags = []
-        for k, bound, key in ((0, v.slice.lower, "sent_start"), (1, v.slice.upper, "sent_end")):
-            c = raw(bound, k) if bound is not None else None
-            if c is not None:
-                if k not in sentinel_ne or sentinel_ne[k][0] != c:
-                    raise TranslateError("reduce_to_section: a found index is used without the `== -1` test")
-                _merge(out, key, sentinel_ne[k][1], what)
-                flags.append(False)
-            else:
-                if k == 0:
-                    dflt_ok = _const_is(bound, env, 0)
-                else:
-                    dflt_ok = bound is None or _const_is(bound, env, None) or dump(bound) == len_kernel
-                if not dflt_ok:
-                    raise TranslateError("reduce_to_section: defaults are not 0 / len(kernel)")
-                if k not in sentinel_eq:
-                    raise TranslateError("reduce_to_section: a default is used without the `== -1` test")
-                c = sentinel_eq[k][0]
-                _merge(out, key, sentinel_eq[k][1], what)
-                flags.append(True)
-            _merge(callee_of, isa, c, what)
-        combos.setdefault(isa, set()).add(tuple(flags))
-    for isa, cs in combos.items():
-        if cs != {(False, False), (False, True), (True, False), (True, True)}:
-            raise TranslateError("reduce_to_section: for %r not every combination of found / default is reachable" % isa)
+    # ---- per ISA name and per combination found / not found: what is returned
+    for isa in values:
+        for world in ((False, False), (False, True), (True, False), (True, True)):
+            live = [e for e in rets if feasible(e.conds, isa, world)]
+            if not live:
+                if not any(feasible(e.conds, isa) for e in rets):
+                    break       # a name that is only rejected (compared with, never served)
+                raise TranslateError("reduce_to_section: for %r not every combination of found / default is reachable" % isa)
+            for e in live:
+                v = e.value
+                if not (isinstance(v, ast.Subscript) and isinstance(v.slice, ast.Slice) and _is_name(v.value, p_kernel)
+                        and v.slice.step is None):
+                    raise TranslateError("reduce_to_section: `return kernel[start:end]` not found (line %s)" % e.node.lineno)
+                for k, bound in ((0, v.slice.lower), (1, v.slice.upper)):
+                    if world[k]:
+                        if not is_default(bound, k):
+                            raise TranslateError("reduce_to_section: defaults are not 0 / len(kernel)"
+                                                 if raw(bound, k) is None else
+                                                 "reduce_to_section: a found index is used without the `== -1` test")
+                    else:
+                        c = raw(bound, k) if bound is not None else None
+                        if c is None:
+                            raise TranslateError("reduce_to_section: a default is used without the `== -1` test"
+                                                 if is_default(bound, k) else
+                                                 "reduce_to_section: `return kernel[start:end]` not found (line %s)" % e.node.lineno)
+                        _merge(callee_of, isa, c, what)
+        else:
+            if isa not in callee_of:
+                raise TranslateError("reduce_to_section: the finder used for %r is not determined" % isa)
+    for k, key in ((0, "sent_start"), (1, "sent_end")):
+        if len(sentinels[k]) != 1:
+            raise TranslateError("reduce_to_section: the `== -1` test of the %s index not found (or several values: %r)"
+                                 % ("start" if k == 0 else "end", sorted(sentinels[k])))
+        out[key] = sentinels[k].pop()
     if len(callee_of) != 2:
         raise TranslateError("reduce_to_section: expected two ISA branches, got %r" % sorted(callee_of))
     return sorted(callee_of.items()), out["lowered"], out["sent_start"], out["sent_end"]
